@@ -14,9 +14,22 @@ def model_check(rep, tier, wd):
         rep.add_tlc("MenuGrid (moveSelector / findFirstCandidate / group cycling, %s)" % cfg, r)
 
 
+# names as applications offer them (files, flags, variables, sub-commands): upper / lower case, leading dots, dashes and
+# underscores, digits, extensions, names that look like messages
+REAL = ["README", "README.md", "ERRORS.md", "ERRFILE", "ERR", "_", "__init__.py", "_build", ".git", ".gitignore", "Makefile", "main.go", "main_test.go",
+        "a", "A", "ab", "a-b", "a_b", "a.b", "--help", "-h", "--all", "-a", "--color=auto", "x=1", "HOME", "PATH", "$HOME", "%s", "100%", "0", "007",
+        "Über", "éclair", "中文", "status", "stash", "commit", "checkout", "cherry-pick", "WARN", "INFO", "error", "errors", "Error:", "no", "none", "nil",
+        "true", "false", "cfg_", "cfgERR", "cfg", "..", "...", "@", "+x", "user@host", "a,b", "k8s", "v1.2.3", "(1)", "[x]", "{}", "#tag", "!"]
+
+
 def gen_cands(rng):
     n = rng.choice([1, 2, 3, 4, 5, 6, 7, 8, 9, 10, 12, 13, 16, 17, 20, 24, 25, 31, 40, 59, 60])
-    kind = rng.choice(["plain", "plain", "described", "aliased", "tags", "tags-aliased", "wide", "long"])
+    kind = rng.choice(["plain", "plain", "described", "aliased", "tags", "tags-aliased", "wide", "long", "real", "real"])
+    if kind == "real":
+        names = rng.sample(REAL, min(n, len(REAL)))
+        flavour = rng.choice(["plain", "described", "tags"])
+        return "real-" + flavour, [dict({"v": v}, **({"desc": "about %d" % (i % 5)} if flavour == "described" else {"tag": "g%d" % (i % 3)} if flavour == "tags" else {}))
+                                   for i, v in enumerate(names)]
     width = rng.choice([2, 3, 5, 8, 12]) if kind != "long" else rng.choice([25, 40, 70])
     cands = []
     for i in range(n):
